@@ -54,6 +54,8 @@ def setup():
   d = tempfile.mkdtemp(prefix='c16_')
   with open(os.path.join(d, 'c16mod.py'), 'w') as fh:
     fh.write('def f(a=None, b=None, z=None):\n  return (a, b, z)\n\ndef g(p=None):\n  return p\n')
+  with open(os.path.join(d, 'c16badsyn.py'), 'w') as fh:
+    fh.write('def (:\n')
   sys.path.insert(0, d)
   atexit.register(lambda: shutil.rmtree(d, ignore_errors=True))
   import c16mod  # pylint: disable=import-outside-toplevel,unused-import
@@ -104,6 +106,9 @@ FAULTS = {
     'denylisted': ("c16.deny.x = 1", ValueError, 'semantic'),
     'bad_include': ("include 'missing.gin'", IOError, 'semantic'),
     'bad_import': ("import no_such_module_c16", ImportError, 'semantic'),
+    # the module exists but does not compile: Python's SyntaxError names the module's file, the error must still say
+    # which statement of which config file (and which includes) led there
+    'import_of_module_with_syntax_error': ("import c16badsyn", SyntaxError, 'semantic'),
     'ambiguous_constant': ("c16.f.z = %AMBIG", ValueError, 'semantic'),
     'unknown_block': ("c16.nofn:\n  z = 1", ValueError, 'semantic'),
 }
